@@ -17,10 +17,73 @@ REASONS_FAIL = ["KnownIssue", "SystemIssue", "UnknownIssue", "ResourceExhausted"
                 "Cancelled"]
 
 
+_ALL_NAMES = ["Alpha", "Beta", "Gamma", "Delta", "Eps", "Zeta", "Eta", "Theta", "Iota", "Kappa", "Lambda", "Mu", "Nu", "Xi"]
+
+
+def _blank(name, stage, refs=(), **kw):
+    c = {"name": name, "stage": stage, "refs": [{"p": p, "abs": True, "method": "ref", "path": None} for p in refs],
+         "replicate": None, "aggregate": False, "repeat": None, "shutdownOn": [], "restartHookOn": None,
+         "maxRestarts": None, "lits": []}
+    c.update(kw)
+    return c
+
+
+@st.composite
+def with_motif(draw, W):
+    """Appends, to a third of the workflows, one of the wiring motifs that random DAGs rarely contain."""
+    kind = draw(st.sampled_from(["none", "none", "none", "none", "agg-over-replicas", "observer-two-subjects",
+                                 "shutdown-chain"]))
+    if kind == "none":
+        return W
+    comps = W["components"]
+    free = [n for n in _ALL_NAMES if n not in {c["name"] for c in comps}]
+    last = comps[-1]["stage"]
+    if kind == "agg-over-replicas":
+        rep = wfgen.replication(W)
+        cand = [i for i, c in enumerate(comps) if rep[i] and not c["aggregate"] and not c["repeat"]]
+        if not cand:
+            src = [i for i, c in enumerate(comps) if not c["aggregate"] and not c["repeat"] and not c["refs"]]
+            if not src:
+                return W
+            i = draw(st.sampled_from(src))
+            comps[i]["replicate"] = "lit"
+            rep = wfgen.replication(W)
+            cand = [j for j, c in enumerate(comps) if rep[j] and not c["aggregate"] and not c["repeat"]]
+        p = draw(st.sampled_from(cand))
+        stage = draw(st.sampled_from([last, min(last + 1, 2)]))
+        stage = max(stage, comps[p]["stage"])
+        extra = [q for q in range(len(comps)) if q != p and comps[q]["stage"] <= stage and draw(st.integers(0, 3)) == 0][:1]
+        comps.append(_blank(free[0], stage, refs=sorted([p] + extra), aggregate=True))
+    elif kind == "shutdown-chain":
+        # head (exits with a shutdownOn reason) -> c1 -> c2 -> c3 [-> c4]: shutdown has to propagate down the chain
+        s = last
+        n0 = len(comps)
+        depth = draw(st.integers(3, 5))
+        reason = draw(st.sampled_from(["KnownIssue", "SystemIssue", "UnknownIssue"]))
+        comps.append(_blank(free[0], s, shutdownOn=[reason], restartHookOn=[]))
+        for k in range(1, depth):
+            comps.append(_blank(free[k], s, refs=[n0 + k - 1]))
+        W["hint"] = {"component": n0, "reason": reason}
+    else:
+        # gate -> late ; fast ; observer(late, fast) : one subject becomes ready a scheduler pass later than the other
+        s = last
+        n0 = len(comps)
+        comps.append(_blank(free[0], s))                                    # gate
+        comps.append(_blank(free[1], s, refs=[n0]))                          # late
+        comps.append(_blank(free[2], s))                                    # fast
+        order = draw(st.permutations([n0 + 1, n0 + 2]))
+        obs = _blank(free[3], s, refs=sorted(order), repeat=5)
+        obs["refs"] = [{"p": p, "abs": True, "method": "ref", "path": None} for p in order]
+        comps.append(obs)
+    return W
+
+
 @st.composite
 def runtime_cases(draw, max_components=5, max_stages=3, fail_rate=6):
     W = draw(wfgen.workflows(max_components=max_components, max_stages=max_stages, names="simple",
                              methods=("ref",), allow_repeat=True, allow_shutdown=True, max_n=2))
+    W = draw(with_motif(W))
+    hint = W.pop("hint", None)
     nodes, preds = wfgen.expand(W)
     script = {}
     for ref in sorted(nodes):
@@ -34,6 +97,21 @@ def runtime_cases(draw, max_components=5, max_stages=3, fail_rate=6):
             script[ref] = [draw(st.sampled_from(pool)) for _ in range(k)]
             if draw(st.booleans()):
                 script[ref].append("Success")
+    # focus: half of the cases make one *producer* (a node somebody consumes from) exit badly on its first execution
+    # - unrecoverably or with a shutdownOn reason - so that failure/shutdown propagation is exercised often
+    producers = sorted({p for ps in preds.values() for p in ps if not nodes[p]["repeat"]})
+    if producers and draw(st.booleans()):
+        victim = draw(st.sampled_from(producers))
+        c = W["components"][nodes[victim]["idx"]]
+        restart_on = c["restartHookOn"] if c["restartHookOn"] is not None else ["ResourceExhausted"]
+        fatal = [r for r in ["KnownIssue", "SystemIssue", "UnknownIssue", "Killed", "Cancelled"]
+                 if r not in c["shutdownOn"]]
+        pool = fatal + list(c["shutdownOn"])
+        script[victim] = [draw(st.sampled_from(pool))]
+    if hint is not None:
+        for ref in sorted(nodes):
+            if nodes[ref]["idx"] == hint["component"]:
+                script[ref] = [hint["reason"]]
     return {"W": W, "script": script}
 
 
@@ -145,6 +223,32 @@ class LaunchMonitor:
         self.launches.append({"ref": ref, "n": n, "producers": snap})
 
 
+    def on_component_run(self, drv, ref, cs):
+        """The property's own observation point: ComponentState.run() (the controller starts the component) versus
+        the state of everything it consumes from. For a repeating consumer a same-stage producer must have been
+        started (its own run() called) or be final."""
+        nd = self.nodes.get(ref)
+        if nd is None:
+            return
+        for p in self.preds[ref]:
+            st_p = drv.comp_state(p)
+            same_stage_observer = bool(nd["repeat"]) and self.nodes[p]["stage"] == nd["stage"]
+            if same_stage_observer:
+                if st_p not in FINAL and drv.run_called.get(p, 0) == 0:
+                    self.violations.append(("observer-started-before-subject-started",
+                                            "%s (repeating) was started while same-stage producer %s had not been "
+                                            "started and is '%s'" % (ref, p, st_p)))
+                continue
+            if st_p not in FINAL:
+                self.violations.append(("started-before-producer-final",
+                                        "%s started while producer %s is '%s'" % (ref, p, st_p)))
+            elif st_p == FAILED:
+                self.violations.append(("started-with-failed-producer", "%s started although producer %s FAILED" % (ref, p)))
+            elif st_p == SHUTDOWN and not nd["aggregate"]:
+                self.violations.append(("started-with-shutdown-producer",
+                                        "non-aggregating %s started although producer %s is SHUTDOWN" % (ref, p)))
+
+
 def check_graph_matches_model(exp, W):
     """The harness' own model of who consumes whom must agree with the graph the controller walks; a mismatch is a
     generator/model problem (C03 is the property about replication itself), reported as a harness error."""
@@ -167,7 +271,8 @@ def run_case(case, ctx: Ctx, chooser: Chooser, max_decisions=6000):
         exp = pkg.experiment_from_flowir(wfgen.render(W), loc)
         check_graph_matches_model(exp, W)
         mon = LaunchMonitor(W)
-        drv = driver.Driver(exp, chooser, case["script"], on_launch=mon, max_decisions=max_decisions)
+        drv = driver.Driver(exp, chooser, case["script"], on_launch=mon, max_decisions=max_decisions,
+                            on_component_run=mon.on_component_run)
         res = drv.run()
         return res, mon
     finally:
